@@ -2,7 +2,7 @@
 inlining of single definitions, provenance sets."""
 import ast
 import copy
-from .core import AnalysisError, norm, dotted, enclosing_stmt, walk_no_nested, parent
+from .core import AnalysisError, norm, dotted, enclosing_stmt, walk_no_nested, parent, clone
 from .cfg import CFG, ENTRY, EXIT, RAISE, all_stmts
 
 
@@ -73,12 +73,12 @@ class Flow:
                     return n
                 value, st = r
                 # do not inline through a definition that mentions the name itself
-                return T(st, self.depth - 1).visit(copy.deepcopy(value))
+                return T(st, self.depth - 1).visit(clone(value))
 
             def visit_Lambda(self, n):
                 return n
 
-        new = T(at, depth).visit(copy.deepcopy(expr))
+        new = T(at, depth).visit(clone(expr))
         return ast.fix_missing_locations(new)
 
     def prov(self, expr, at=None, depth=8):
